@@ -143,7 +143,7 @@ namespace Dune {
      */
     const_iterator find (const key_type & key) const
     {
-      const map_iterator it = _index.find(key);
+      const const_map_iterator it = _index.find(key);
       if (it == _index.end()) return _data.end();
       return it->second;
     }
